@@ -1,7 +1,7 @@
 (* line driver for the C01 model (extracted from PipelineDefs.v with the source's configuration).
    One case per input line:   <tree tokens> | <message tokens>
    tree tokens (space separated, fields ':'-separated, strings = hex UTF-16 units, 4 digits each):
-     as:oid:k:v ac:oid:k ft:oid ff:oid fc:oid:s fh:oid:k fy:oid:t mt:oid:tag ma:oid:tag:k mn:oid me:oid
+     as:oid:k:v am:oid:k.v,k.v,... ac:oid:k ft:oid ff:oid fc:oid:s fh:oid:k fy:oid:t mt:oid:tag ma:oid:tag:k mn:oid me:oid
      s:oid p:oid gs:oid:k:v:r gr:oid:k:r gf:oid:tag:r gc:oid:r q:oid:name d:oid l:oid:t z
      (  = unscoped SimplePipeline child   (! = child made by SimplePipeline::pipeline()
      (+ = scoped plain Pipeline child     (- = unscoped plain Pipeline child      ) = end of child
@@ -41,6 +41,9 @@ let rec parse_list toks =   (* handlers, remaining tokens after the closing pare
       | ["(!"] -> let (hs, r2) = parse_list r in (HPipe (!fluent_scoped, hs), r2)
       | ["as"; o; k; v] -> leaf o (LAttrSet (unhex k, unhex v))
       | ["ac"; o; k] -> leaf o (LAttrCopy (unhex k))
+      | ["am"; o; kvs] -> leaf o (LAttrSetMany (List.map (fun kv -> match String.split_on_char '.' kv with
+                            | [k; v] -> (unhex k, unhex v) | _ -> failwith ("bad pair " ^ kv))
+                            (List.filter (fun x -> x <> "") (String.split_on_char ',' kvs))))
       | ["ft"; o] -> leaf o (LFilter PTrue) | ["ff"; o] -> leaf o (LFilter PFalse)
       | ["fc"; o; s] -> leaf o (LFilter (PContains (unhex s))) | ["fh"; o; k] -> leaf o (LFilter (PHas (unhex k)))
       | ["fy"; o; t] -> leaf o (LFilter (PType (mtype_of_int (int_of_string t))))
@@ -62,6 +65,7 @@ let rec show_tree b hs = List.iter (fun h -> Buffer.add_char b ' '; match h with
   | HLeaf (o, l) -> let o = string_of_int (int_of_nat o) in
     Buffer.add_string b (String.concat ":" (match l with
       | LAttrSet (k, v) -> ["as"; o; hex k; hex v] | LAttrCopy k -> ["ac"; o; hex k]
+      | LAttrSetMany kvs -> ["am"; o; String.concat "," (List.map (fun (k, v) -> hex k ^ "." ^ hex v) kvs)]
       | LFilter PTrue -> ["ft"; o] | LFilter PFalse -> ["ff"; o] | LFilter (PContains s) -> ["fc"; o; hex s]
       | LFilter (PHas k) -> ["fh"; o; hex k] | LFilter (PType t) -> ["fy"; o; string_of_int (int_of_mtype t)]
       | LFmtTag t -> ["mt"; o; hex t] | LFmtAttr (t, k) -> ["ma"; o; hex t; hex k] | LFmtNull -> ["mn"; o] | LFmtEmpty -> ["me"; o]
